@@ -676,12 +676,31 @@ func c16Distribute(rc *RunCtx, t *simrt.Tape, dir string, p parCfg) {
 		if t.Choose(5) == 4 {
 			delete(recs[i].Annot, "sample") // routed to the NA value
 		}
+		if t.Choose(4) == 3 && i > 0 {
+			recs[i].Seq = recs[t.Choose(i)].Seq // same sequence: same file under --hash
+		}
 	}
 	na := "NA"
-	args := []string{"-c", "sample", "-p", filepath.Join(dir, "part_%s.fasta")}
-	if t.Choose(3) == 2 {
-		na = "unknown"
-		args = append(args, "--na-value", na)
+	mode := t.Choose(4) // 0,1: -c sample ; 2: --batches N ; 3: --hash N
+	nfiles := 2 + t.Choose(4)
+	args := []string{"-p", filepath.Join(dir, "part_%s.fasta")}
+	switch mode {
+	case 2:
+		args = append(args, "--batches", fmt.Sprint(nfiles))
+	case 3:
+		args = append(args, "--hash", fmt.Sprint(nfiles))
+	default:
+		args = append(args, "-c", "sample")
+		if t.Choose(3) == 2 {
+			na = "unknown"
+			args = append(args, "--na-value", na)
+		}
+	}
+	gz := t.Choose(4) == 3
+	suffix := ""
+	if gz {
+		args = append(args, "-Z")
+		suffix = ".gz"
 	}
 	in := filepath.Join(dir, "in.fasta")
 	os.WriteFile(in, fastaText(recs, true), 0644)
@@ -693,32 +712,107 @@ func c16Distribute(rc *RunCtx, t *simrt.Tape, dir string, p parCfg) {
 	if !rc.cmdMustSucceed(co, "C16/obidistribute", fmt.Sprintf("obidistribute %v (%s)", relArgs(args, dir), p)) {
 		return
 	}
-	want := map[string][]string{}
-	for _, r := range recs {
-		key := na
-		if v, ok := r.Annot["sample"]; ok {
-			key = fmt.Sprint(v)
-		}
-		want["part_"+key+".fasta"] = append(want["part_"+key+".fasta"], irecOf(r).canon())
-	}
-	files, _ := filepath.Glob(filepath.Join(dir, "part_*.fasta"))
+	files, _ := filepath.Glob(filepath.Join(dir, "part_*.fasta"+suffix))
 	got := map[string][]string{}
 	for _, f := range files {
-		rs, err := readFastxFile(f)
+		raw, err := os.ReadFile(f)
+		if err == nil && gz {
+			raw, err = gunzip(raw)
+		}
 		if err != nil {
 			rc.Violate("C16/obidistribute/unparsable-output", "%s: %v", filepath.Base(f), err)
 			return
 		}
-		got[filepath.Base(f)] = canons(rs)
-	}
-	if !equalStrings(sortedKeys(got), sortedKeys(want)) {
-		rc.Violate("C16/obidistribute/file-set", "files %v, expected exactly %v", sortedKeys(got), sortedKeys(want))
-		return
-	}
-	for _, f := range sortedKeys(want) {
-		if !equalStrings(got[f], want[f]) {
-			rc.Violate("C16/obidistribute/routing", "file %s: %s", f, firstDiff(got[f], want[f]))
+		ps, err := parseObiFastx(raw)
+		if err != nil {
+			rc.Violate("C16/obidistribute/unparsable-output", "%s: %v", filepath.Base(f), err)
 			return
+		}
+		rs := make([]irec, len(ps))
+		for i, q := range ps {
+			rs[i] = irecOfParsed(q)
+		}
+		got[strings.TrimSuffix(filepath.Base(f), suffix)] = canons(rs)
+	}
+	modeName := []string{"classifier", "classifier", "batches", "hash"}[mode]
+	switch mode {
+	case 0, 1:
+		want := map[string][]string{}
+		for _, r := range recs {
+			key := na
+			if v, ok := r.Annot["sample"]; ok {
+				key = fmt.Sprint(v)
+			}
+			want["part_"+key+".fasta"] = append(want["part_"+key+".fasta"], irecOf(r).canon())
+		}
+		if !equalStrings(sortedKeys(got), sortedKeys(want)) {
+			rc.Violate("C16/obidistribute/file-set", "files %v, expected exactly %v", sortedKeys(got), sortedKeys(want))
+			return
+		}
+		for _, f := range sortedKeys(want) {
+			if !equalStrings(got[f], want[f]) {
+				rc.Violate("C16/obidistribute/routing/"+modeName, "file %s: %s", f, firstDiff(got[f], want[f]))
+				return
+			}
+		}
+	case 2:
+		// records are dealt in turn, in input order
+		want := map[string][]string{}
+		for i, r := range recs {
+			f := fmt.Sprintf("part_%d.fasta", i%nfiles+1)
+			want[f] = append(want[f], irecOf(r).canon())
+		}
+		if !equalStrings(sortedKeys(got), sortedKeys(want)) {
+			rc.Violate("C16/obidistribute/file-set", "--batches %d: files %v, expected %v", nfiles, sortedKeys(got), sortedKeys(want))
+			return
+		}
+		for _, f := range sortedKeys(want) {
+			if !equalStrings(got[f], want[f]) {
+				rc.Violate("C16/obidistribute/routing/"+modeName, "--batches %d, file %s: %s", nfiles, f, firstDiff(got[f], want[f]))
+				return
+			}
+		}
+	case 3:
+		// every record in exactly one file, chosen from its sequence alone, at most N files,
+		// input order kept inside a file
+		if len(got) > nfiles {
+			rc.Violate("C16/obidistribute/file-set", "--hash %d produced %d files", nfiles, len(got))
+			return
+		}
+		where := map[string]string{}
+		seqFile := map[string]string{}
+		rank := map[string]int{}
+		for i, r := range recs {
+			rank[irecOf(r).canon()] = i
+		}
+		for f, rs := range got {
+			last := -1
+			for _, c := range rs {
+				if prev, dup := where[c]; dup {
+					rc.Violate("C16/obidistribute/routing/"+modeName, "record %s is in %s and in %s", clip(c, 60), prev, f)
+					return
+				}
+				where[c] = f
+				k, known := rank[c]
+				if !known {
+					rc.Violate("C16/obidistribute/routing/"+modeName, "file %s holds a record that is not in the input: %s", f, clip(c, 80))
+					return
+				}
+				if k < last {
+					rc.Violate("C16/obidistribute/routing/"+modeName, "file %s: records are not in input order", f)
+					return
+				}
+				last = k
+				sq := strings.Split(c, "|")[1]
+				if g, ok := seqFile[sq]; ok && g != f {
+					rc.Violate("C16/obidistribute/routing/"+modeName, "sequence %s is routed to %s and to %s", clip(sq, 40), g, f)
+					return
+				}
+				seqFile[sq] = f
+			}
+		}
+		if len(where) != len(rank) {
+			rc.Violate("C16/obidistribute/routing/"+modeName, "%d of %d distinct records written", len(where), len(rank))
 		}
 	}
 }
